@@ -1,5 +1,5 @@
 SPECIFICATION Spec
-CONSTANTS Vals = {1, 2}  MaxMats = 3  NormVariant = "rowmajor"  SortVariant = "common"
+CONSTANTS Vals = {1, 2}  MaxMats = 3  AllFormatsUpTo = 2  NormVariant = "rowmajor"  SortVariant = "common"
 INVARIANT TypeOK
 INVARIANT NormalForm
 INVARIANT FormatIndependent
